@@ -140,14 +140,42 @@ func (r *oneByteReader) Read(b []byte) (int, error) {
 	return 1, nil
 }
 
+// eofDataReader hands out everything asked for and reports io.EOF together with the final bytes of the stream (as
+// gzip and iotest.DataErrReader do; the io.Reader contract allows it); it hides every optional interface.
+type eofDataReader struct {
+	data []byte
+	pos  int
+}
+
+func (r *eofDataReader) Read(b []byte) (int, error) {
+	if len(b) == 0 {
+		return 0, nil
+	}
+	n := copy(b, r.data[r.pos:])
+	r.pos += n
+	if r.pos >= len(r.data) {
+		return n, io.EOF
+	}
+	return n, nil
+}
+
 func mkReader(kind string, data []byte) io.Reader {
 	switch kind {
 	case "plain":
 		return &engine.PlainReader{Data: data}
 	case "onebyte":
 		return &oneByteReader{data: data}
+	case "eofdata":
+		return &eofDataReader{data: data}
 	}
 	return bytes.NewReader(data)
+}
+
+// extraCarx: the carrier family (every tree x every position) is also run through these entry/reader pairs.
+var extraCarx = []carx{
+	{reader: "bytes", entry: "marshal"},
+	{name: "rt", reader: "eofdata", entry: "coder"},
+	{name: "rt", reader: "onebyte", entry: "coder"},
 }
 
 // encodeStep encodes v. data is what the entry point returned (NOT copied: whether it stays
@@ -586,18 +614,20 @@ func carriers(nFull, nRed int, deadline time.Time) {
 			}
 			nm := 0
 			for _, cfg := range carCfgs {
-				if cfg.network {
-					continue
-				}
-				nm++
-				x := carx{reader: "bytes", entry: "marshal"}
-				class, detail := judgeCarrierX(tree, cfg, x)
-				if class != "" {
-					cfg := cfg
-					rep.FailLazy(class, tree.Count()*1000+len(detail), func() engine.Failure {
-						return engine.Failure{Detail: detail + " [" + carxString(cfg, x) + "] doc=" + clipS(tree.String(), 200),
-							Case: CarCase{"carrier", c.Tape(), g.name, g.n, clipS(tree.String(), 300), carxString(cfg, x)}}
-					})
+				for _, x := range extraCarx {
+					if cfg.network && x.entry == "marshal" {
+						continue
+					}
+					nm++
+					x := x
+					class, detail := judgeCarrierX(tree, cfg, x)
+					if class != "" {
+						cfg := cfg
+						rep.FailLazy(class+"/reader="+x.reader, tree.Count()*1000+len(detail), func() engine.Failure {
+							return engine.Failure{Detail: detail + " [" + carxString(cfg, x) + "] doc=" + clipS(tree.String(), 200),
+								Case: CarCase{"carrier", c.Tape(), g.name, g.n, clipS(tree.String(), 300), carxString(cfg, x)}}
+						})
+					}
 				}
 			}
 			atomic.AddInt64(&evals, int64(len(carCfgs)+nm))
@@ -772,11 +802,13 @@ func replay() {
 					}
 					rep.Eval(1)
 				}
-				if x := (carx{reader: "bytes", entry: "marshal"}); carxString(cfg, x) == c.Conf {
-					if class, detail := judgeCarrierX(tree, cfg, x); class != "" {
-						rep.Fail(engine.Failure{Class: class, Detail: detail, Case: c}, 0)
+				for _, x := range extraCarx {
+					if carxString(cfg, x) == c.Conf {
+						if class, detail := judgeCarrierX(tree, cfg, x); class != "" {
+							rep.Fail(engine.Failure{Class: class + "/reader=" + x.reader, Detail: detail, Case: c}, 0)
+						}
+						rep.Eval(1)
 					}
-					rep.Eval(1)
 				}
 			}
 		}
